@@ -374,6 +374,10 @@ func (r *Realm) parseLines(name string, lines []string) (err error) {
 			}
 		}
 
+		if !strings.Contains(line, "=") {
+			// The closing bracket of a nested block
+			continue
+		}
 		p := strings.Split(line, "=")
 		key := strings.TrimSpace(strings.ToLower(p[0]))
 		v := strings.TrimSpace(p[1])
@@ -444,7 +448,12 @@ func parseRealms(lines []string) (realms []Realm, err error) {
 			c--
 			if c == 0 {
 				var r Realm
-				e := r.parseLines(name, lines[start+1:i])
+				var rl []string
+				if start < i {
+					// The block is not opened and closed on the same line
+					rl = lines[start+1 : i]
+				}
+				e := r.parseLines(name, rl)
 				if e != nil {
 					if _, ok := e.(UnsupportedDirective); !ok {
 						err = e
